@@ -112,7 +112,7 @@ var blockKinds = []string{"single", "single", "list", "list", "set", "map", "map
 // allowMap2: two-level block maps permitted here.
 func GenSchema(t *rapid.T, depth int) BodyS {
 	nm := &namer{}
-	return genBody(t, nm, depth, true, true)
+	return genBody(t, nm, depth, true, true, "")
 }
 
 // GenSchemaPlain draws a schema without any/tuple attributes, tuple/object block
@@ -120,7 +120,7 @@ func GenSchema(t *rapid.T, depth int) BodyS {
 // (gohcl.EncodeIntoBody) documents as supported.
 func GenSchemaPlain(t *rapid.T, depth int) BodyS {
 	nm := &namer{}
-	b := genBody(t, nm, depth, false, true)
+	b := genBody(t, nm, depth, false, true, "")
 	var fix func(b *BodyS)
 	fix = func(b *BodyS) {
 		for i := range b.Blocks {
@@ -137,7 +137,9 @@ func GenSchemaPlain(t *rapid.T, depth int) BodyS {
 	return b
 }
 
-func genBody(t *rapid.T, nm *namer, depth int, allowDyn bool, top bool) BodyS {
+// self: the type name of the block whose body this is; a nested block type may
+// carry the same name (a block type nesting inside itself, e.g. group { group {} }).
+func genBody(t *rapid.T, nm *namer, depth int, allowDyn bool, top bool, self string) BodyS {
 	var b BodyS
 	na := rapid.IntRange(0, 4).Draw(t, "nattrs")
 	if top && na == 0 {
@@ -161,8 +163,15 @@ func genBody(t *rapid.T, nm *namer, depth int, allowDyn bool, top bool) BodyS {
 	if top && nb == 0 {
 		nb = 1
 	}
+	selfNest := self != "" && rapid.IntRange(0, 2).Draw(t, "self-nest") == 2
+	if selfNest && nb == 0 {
+		nb = 1
+	}
 	for i := 0; i < nb; i++ {
 		bs := BlockS{Name: nm.next(t, blockBases)}
+		if selfNest && i == 0 {
+			bs.Name = self
+		}
 		bs.Kind = rapid.SampledFrom(blockKinds).Draw(t, "bkind")
 		if !allowDyn && (bs.Kind == "tuple" || bs.Kind == "objmap") {
 			bs.Kind = "list"
@@ -195,7 +204,7 @@ func genBody(t *rapid.T, nm *namer, depth int, allowDyn bool, top bool) BodyS {
 		}
 		if bs.Kind != "attrs" {
 			childDyn := allowDyn && (bs.Kind == "single" || bs.Kind == "tuple" || bs.Kind == "objmap")
-			body := genBody(t, nm, depth-1, childDyn, false)
+			body := genBody(t, nm, depth-1, childDyn, false, bs.Name)
 			bs.Body = &body
 		}
 		b.Blocks = append(b.Blocks, bs)
